@@ -1319,6 +1319,11 @@ func (s *srcStream) Close() {
 	if r.srcInNext.Load() > 0 {
 		r.srcOverlap.Add(1)
 	}
+	// a Close that takes a moment: whoever has to wait for it must really wait (seeded change C14-20)
+	runtime.Gosched()
+	if len(r.pl.vals)%2 == 1 {
+		time.Sleep(100 * time.Microsecond)
+	}
 	r.srcCloses.Add(1)
 	r.srcInClose.Add(-1)
 }
@@ -1546,9 +1551,14 @@ func (r *run) streamScenario(o *outcome) {
 		o.v = &viol{"panic", fmt.Sprintf("MapStream Close after %d results panicked: %s", got, p.Msg), map[string]any{"stack": p.Stack}}
 		return
 	}
+	closesAtReturn := r.srcCloses.Load() // sampled before anything else: the statement says "returns after ... the source has been closed"
 	r.closeRet.Store(true)
 	r.phase.Store("after-close")
-	o.evals += 4
+	o.evals += 5
+	if closesAtReturn == 0 {
+		o.v = &viol{"close-returned-before-source-closed", fmt.Sprintf("MapStream Close (after %d results) returned while the source had not been closed yet (its Close was still to come or in progress)", got), nil}
+		return
+	}
 	if g := r.gauge.Cur(); g != 0 {
 		o.v = &viol{"close-f-running", fmt.Sprintf("MapStream Close (after %d results) returned while %d calls of f were still running", got, g), nil}
 		return
